@@ -44,6 +44,16 @@ def lscale(a: dict, f) -> dict:
     return {k: c * f for k, c in a.items() if c * f}
 
 
+def lmul(a: dict, b: dict) -> dict:
+    """product of two forms; a product of symbols is the symbol `x*y` (factors sorted)"""
+    out = {}
+    for ka, ca in a.items():
+        for kb, cb in b.items():
+            k = "*".join(sorted([f for f in (ka.split("*") if ka and "(" not in ka else [ka]) + (kb.split("*") if kb and "(" not in kb else [kb]) if f]))
+            out[k] = out.get(k, 0) + ca * cb
+    return {k: c for k, c in out.items() if c}
+
+
 def lconst(a: dict):
     """the integer value of a constant form, else None"""
     if all(k == "" for k in a):
@@ -164,6 +174,14 @@ class Tup:
 
 
 @dataclass
+class Rng:
+    """a range object: start, step, number of elements (forms)"""
+    start: dict
+    step: dict
+    count: dict
+
+
+@dataclass
 class Opaque:
     text: str
 
@@ -255,6 +273,9 @@ def cneg(c):
         return ("ne0", c[1])
     if c[0] == "ne0":
         return ("eq0", c[1])
+    if c[0] == "lt0":
+        # integers: not (X < 0)  <=>  -X - 1 < 0
+        return mk_cmp("<", ladd(lscale(parse_l(c[1]), -1), lc(-1)), {})
     if c[0] == "and":
         return ("or",) + tuple(cneg(x) for x in c[1:])
     if c[0] == "or":
@@ -275,8 +296,9 @@ class Exit:
 
 # ------------------------------------------------------------------------------------------------ evaluator
 class Offsets:
-    def __init__(self, repo: Repo, module: Module, fn: ast.FunctionDef, buf: str, hdr: str):
-        self.repo, self.module, self.fn, self.buf, self.hdr = repo, module, fn, buf, hdr
+    def __init__(self, repo: Repo, module: Module, fn: ast.FunctionDef, buf: str, hdr: str, cls=None):
+        self.repo, self.module, self.fn, self.buf, self.hdr, self.cls = repo, module, fn, buf, hdr, cls
+        self.depth = 0
         self.exits: list[Exit] = []
         self.nacc = 0
         self.lt_facts: list = []
@@ -305,9 +327,7 @@ class Offsets:
             raise Unsupported(f"unknown name {e.id}")
         if isinstance(e, ast.Attribute):
             if isinstance(e.value, ast.Name) and e.value.id == self.hdr and e.value.id not in env.get("__shadow__", ()):
-                if e.attr == "message_length":
-                    return Lin(ls("ML"))
-                return Opaque(norm_text(e))
+                return Lin(ls({"message_length": "ML", "repeat_length": "RL", "repeat_count": "RC", "non_repeat_length": "NRL"}.get(e.attr, f"H.{e.attr}")))
             v = self.const(e)
             if v is not _NO:
                 return self.lift(v)
@@ -322,8 +342,8 @@ class Offsets:
                     return Lin(ladd(a.l, b.l))
                 if isinstance(e.op, ast.Sub):
                     return Lin(ladd(a.l, b.l, -1))
-                if isinstance(e.op, ast.Mult) and (ka is not None or kb is not None):
-                    return Lin(lscale(b.l, ka)) if ka is not None else Lin(lscale(a.l, kb))
+                if isinstance(e.op, ast.Mult):
+                    return Lin(lmul(a.l, b.l))
                 if isinstance(e.op, (ast.FloorDiv, ast.Mod)) and kb is not None and kb > 0:
                     if ka is not None:
                         return Lin(lc(ka // kb if isinstance(e.op, ast.FloorDiv) else ka % kb))
@@ -403,6 +423,19 @@ class Offsets:
         if isinstance(e, ast.List) and not e.elts:
             self.nacc += 1
             return Acc(f"list#{self.nacc}")
+        if isinstance(e, (ast.ListComp, ast.GeneratorExp)) and len(e.generators) == 1 and not e.generators[0].ifs and isinstance(e.generators[0].target, ast.Name):
+            g = e.generators[0]
+            rng = self._range(g.iter, env)
+            if rng is not None:
+                self.nacc += 1
+                acc = Acc(f"list#{self.nacc}")
+                env2 = dict(env)
+                env2["__pending__"] = []
+                env2[g.target.id] = Lin(ladd(rng[0], lmul(rng[1], ls("k"))))
+                val = self.ev(e.elt, env2)
+                env.setdefault("__pending__", []).append(Loop("for", rng[2], None, {}, {}, list(env2["__pending__"]) + [(acc.name, None, val)], []))
+                return acc
+            return Opaque(norm_text(e)[:80])
         if isinstance(e, ast.DictComp) and len(e.generators) == 1 and not e.generators[0].ifs and isinstance(e.generators[0].target, ast.Name):
             g = e.generators[0]
             it = g.iter
@@ -429,6 +462,30 @@ class Offsets:
         if isinstance(e, ast.JoinedStr):
             return Opaque("<fstring>")
         return Opaque(norm_text(e)[:80])
+
+    def _range(self, it, env):
+        """(start, step, count) forms of `range(...)` with 1-3 arguments (step must be positive: constant or a header symbol)"""
+        if isinstance(it, ast.Name) and isinstance(env.get(it.id), Rng):
+            r = env[it.id]
+            return r.start, r.step, r.count
+        if not (isinstance(it, ast.Call) and dotted(it.func) == "range" and 1 <= len(it.args) <= 3 and not it.keywords):
+            return None
+        vs = [self.ev(a, env) for a in it.args]
+        if not all(isinstance(v, Lin) for v in vs):
+            return None
+        if len(vs) == 1:
+            return {}, lc(1), vs[0].l
+        if len(vs) == 2:
+            return vs[0].l, lc(1), ladd(vs[1].l, vs[0].l, -1)
+        span = ladd(vs[1].l, vs[0].l, -1)
+        k = lconst(vs[2].l)
+        if k is not None:
+            if k <= 0:
+                return None
+            ks = lconst(span)
+            cnt = lc(-(-ks // k)) if ks is not None else ls(f"cd({lfmt(span)},{k})")
+            return vs[0].l, vs[2].l, cnt
+        return vs[0].l, vs[2].l, ls(f"cdv({lfmt(span)};{lfmt(vs[2].l)})")
 
     def _maybe_negative(self, l: dict) -> bool:
         """positions are built from non-negative symbols; a negative coefficient or constant could mean 'from the end'"""
@@ -500,6 +557,62 @@ class Offsets:
         if d == "dict" and not e.args and not e.keywords:
             self.nacc += 1
             return Acc(f"dict#{self.nacc}")
+        if d == "list" and not e.args and not e.keywords:
+            self.nacc += 1
+            return Acc(f"list#{self.nacc}")
+        if d in ("dict", "list", "tuple") and len(e.args) == 1 and not e.keywords and isinstance(e.args[0], ast.Call):
+            # dict(gen(...)) / list(gen(...)) with gen a generator function of the module / class: its yields are the stores
+            inner = e.args[0]
+            di = dotted(inner.func) or ""
+            gfn, gskip = None, 0
+            if di.startswith("self.") and di.count(".") == 1 and self.cls is not None:
+                found = self.repo.find_method(self.cls, di.split(".")[1])
+                gfn = found[1] if found else None
+                gskip = 1 if gfn is not None and not any((dotted(x) or "") == "staticmethod" for x in gfn.decorator_list) else 0
+            elif isinstance(inner.func, ast.Name) and inner.func.id in self.module.functions:
+                gfn = self.module.functions[inner.func.id]
+            if gfn is not None and any(isinstance(x, (ast.Yield, ast.YieldFrom)) for x in ast.walk(gfn)) and self.depth < 4:
+                self.nacc += 1
+                acc = Acc(f"{'dict' if d == 'dict' else 'list'}#{self.nacc}")
+                params = [a.arg for a in gfn.args.args][gskip:]
+                args = [self.ev(a, env) for a in inner.args]
+                if len(args) != len(params) or inner.keywords:
+                    return Opaque(norm_text(e)[:80])
+                sub = Offsets(self.repo, self.module, gfn, self.buf, self.hdr, self.cls)
+                sub.depth, sub.nacc = self.depth + 1, self.nacc
+                env2 = dict(zip(params, args))
+                env2["__yield__"] = (acc.name, d == "dict")
+                rest = sub.run(gfn.body, [(env2, [], [])])
+                self.nacc = sub.nacc
+                if len(rest) != 1 or sub.exits:
+                    raise Unsupported(f"generator {gfn.name} has several exits")
+                env.setdefault("__pending__", []).extend(rest[0][2])
+                return acc
+        if d == "range":
+            r = self._range(e, env)
+            return Rng(*r) if r is not None else Opaque(norm_text(e)[:80])
+        fn = None
+        if d.startswith("self.") and d.count(".") == 1 and self.cls is not None:
+            found = self.repo.find_method(self.cls, d.split(".")[1])
+            fn = found[1] if found else None
+            skip = 1 if fn is not None and not any((dotted(x) or "") == "staticmethod" for x in fn.decorator_list) else 0
+        elif isinstance(e.func, ast.Name) and e.func.id in self.module.functions:
+            fn, skip = self.module.functions[e.func.id], 0
+        if fn is not None and not isinstance(fn, ast.AsyncFunctionDef):
+            args = []
+            for a in e.args:
+                if isinstance(a, ast.Starred):
+                    sv = self.ev(a.value, env)
+                    if not isinstance(sv, Tup):
+                        return Opaque(norm_text(e)[:80])
+                    args.extend(sv.items)
+                else:
+                    args.append(self.ev(a, env))
+            kws = {k.arg: self.ev(k.value, env) for k in e.keywords if k.arg}
+            if any(isinstance(a, (Bf, Tup)) for a in list(args) + list(kws.values())) and self.depth < 4:
+                # a helper that is handed a view of the buffer: its reads are reads of this decoder
+                return self.invoke(fn, skip, args, kws, env)
+            return Opaque(norm_text(e)[:80])
         if d in ("min", "max") and len(e.args) >= 2 and not e.keywords:
             vs = [self.ev(a, env) for a in e.args]
             if all(isinstance(v, Lin) for v in vs):
@@ -515,6 +628,7 @@ class Offsets:
             off = self.ev(e.args[1], env) if len(e.args) > 1 else next((self.ev(k.value, env) for k in e.keywords if k.arg == "offset"), Lin({}))
             if isinstance(st, StructVal) and isinstance(base, Bf) and isinstance(off, Lin) and not self._maybe_negative(off.l):
                 start = ladd(base.lo, off.l)
+                env.setdefault("__pending__", []).append(("read", st.fmt, Lin(start)))
                 items = []
                 for sl in st.slots:
                     pos = ladd(start, lc(sl.offset))
@@ -546,6 +660,36 @@ class Offsets:
                 return Obj(ci.name, {k: self.ev(v, env) for k, v in flds.items()})
         return Opaque(norm_text(e)[:80])
 
+    def invoke(self, fn, skip, args, kws, env):
+        params = [a.arg for a in fn.args.args][skip:]
+        sub = Offsets(self.repo, self.module, fn, self.buf, self.hdr, self.cls)
+        sub.depth = self.depth + 1
+        sub.nacc = self.nacc
+        env2 = {"__shadow__": {self.hdr}} if self.hdr not in params else {}
+        for p_, v in zip(params, args):
+            env2[p_] = v
+        env2.update(kws)
+        defaults = fn.args.defaults
+        for p_, dflt in zip(params[len(params) - len(defaults):], defaults):
+            if p_ not in env2:
+                env2[p_] = self.ev(dflt, {})
+        if any(p_ not in env2 for p_ in params):
+            return Opaque(f"call of {fn.name} with missing arguments")
+        rest = sub.run(fn.body, [(env2, [], [])])
+        self.nacc = sub.nacc
+        rets = [x for x in sub.exits if x.kind == "return"] + [Exit("return", c, Cst(None), em) for _, c, em in rest]
+        events = []
+        for x in sub.exits:
+            for ev_ in x.emits:
+                if isinstance(ev_, tuple) and ev_ and ev_[0] == "read" and not any(repr(ev_) == repr(y) for y in events):
+                    events.append(ev_)
+            if any(isinstance(ev_, Loop) or (isinstance(ev_, tuple) and ev_[0] != "read") for ev_ in x.emits):
+                raise Unsupported(f"helper {fn.name} stores or loops")
+        env.setdefault("__pending__", []).extend(events)
+        if len(rets) == 1 and not rets[0].conds:
+            return rets[0].value
+        return Opaque(f"{fn.name}(...)")
+
     # ---- statements ------------------------------------------------------------------------------
     def run(self, stmts, states):
         """states: list of (env, conds, emits). Returns the states that fall through."""
@@ -556,11 +700,15 @@ class Offsets:
             states = nxt
             if not states:
                 break
+        for env, conds, emits in states:
+            self._flush(env, emits)
         return states
 
     def _flush(self, env, emits):
-        for lp in env.pop("__pending__", []):
-            emits.append(lp)
+        pend = env.get("__pending__")
+        if pend:
+            emits.extend(pend)
+            del pend[:]
 
     def bind(self, tgt, v, env, emits):
         if isinstance(tgt, ast.Name):
@@ -571,13 +719,20 @@ class Offsets:
                 for t, x in zip(tgt.elts, v.items):
                     self.bind(t, x, env, emits)
                 return
+            if isinstance(v, Opaque) and not any(isinstance(t, ast.Starred) for t in tgt.elts):
+                for i, t in enumerate(tgt.elts):
+                    self.bind(t, Opaque(f"{v.text}[{i}]"), env, emits)
+                return
             raise Unsupported(f"unpacking of {v!r}")
+        if isinstance(tgt, ast.Attribute) and isinstance(tgt.value, ast.Name) and tgt.value.id == "self":
+            return  # object state of the decoder (e.g. a logged-once flag): not part of the reading of the bytes
         if isinstance(tgt, ast.Subscript) and isinstance(tgt.value, ast.Name) and isinstance(env.get(tgt.value.id), Acc) and not isinstance(tgt.slice, ast.Slice):
             emits.append((env[tgt.value.id].name, self.ev(tgt.slice, env), v))
             return
         raise Unsupported(f"store to {norm_text(tgt)}")
 
     def step(self, st, env, conds, emits):
+        self._flush(env, emits)
         if isinstance(st, (ast.Pass, ast.Assert, ast.Import, ast.ImportFrom)) or (isinstance(st, ast.Expr) and isinstance(st.value, ast.Constant)):
             return [(env, conds, emits)]
         if isinstance(st, ast.Assign):
@@ -602,6 +757,17 @@ class Offsets:
             v = self.ev(ast.BinOp(left=ast.Name(id=st.target.id, ctx=ast.Load()), op=st.op, right=st.value), env)
             env[st.target.id] = v
             return [(env, conds, emits)]
+        if isinstance(st, ast.Expr) and isinstance(st.value, ast.Yield) and "__yield__" in env and st.value.value is not None:
+            accname, pairs = env["__yield__"]
+            v = self.ev(st.value.value, env)
+            self._flush(env, emits)
+            if pairs:
+                if not (isinstance(v, Tup) and len(v.items) == 2):
+                    raise Unsupported("yield of a non-pair into dict()")
+                emits.append((accname, v.items[0], v.items[1]))
+            else:
+                emits.append((accname, None, v))
+            return [(env, conds, emits)]
         if isinstance(st, ast.Expr):
             c = st.value
             if isinstance(c, ast.Call) and isinstance(c.func, ast.Attribute) and isinstance(c.func.value, ast.Name) and isinstance(env.get(c.func.value.id), Acc):
@@ -612,7 +778,12 @@ class Offsets:
                             raise Unsupported("dict unpacking in update()")
                         emits.append((acc.name, self.ev(k, env), self.ev(v, env)))
                     return [(env, conds, emits)]
-                if c.func.attr == "setdefault" or c.func.attr == "append":
+                if c.func.attr == "append" and len(c.args) == 1 and not c.keywords:
+                    v = self.ev(c.args[0], env)
+                    self._flush(env, emits)
+                    emits.append((acc.name, None, v))
+                    return [(env, conds, emits)]
+                if c.func.attr == "setdefault":
                     raise Unsupported(f"{c.func.attr} on an accumulator")
                 raise Unsupported(f"method {c.func.attr} on an accumulator")
             if isinstance(c, ast.Call) and (dotted(c.func) or "").split(".")[0] in ("_LOGGER", "logging"):
@@ -620,12 +791,18 @@ class Offsets:
             raise Unsupported(f"expression statement {norm_text(st)[:60]}")
         if isinstance(st, ast.If):
             c = self.cond(self.ev(st.test, env))
+            self._flush(env, emits)
             out = []
+            def lits(x):
+                # a conjunction contributes its conjuncts
+                if x == TRUE:
+                    return []
+                return [y for z in x[1:] for y in lits(z)] if x[0] == "and" else [x]
             if c != FALSE:
-                out += self.run(st.body, [(dict(env), conds + ([c] if c != TRUE else []), list(emits))])
+                out += self.run(st.body, [(dict(env), conds + lits(c), list(emits))])
             if c != TRUE:
                 nc = cneg(c)
-                out += self.run(st.orelse, [(dict(env), conds + [nc], list(emits))])
+                out += self.run(st.orelse, [(dict(env), conds + lits(nc), list(emits))])
             return out
         if isinstance(st, ast.Raise):
             self.exits.append(Exit("raise", list(conds), norm_text(st.exc)[:60] if st.exc else "", list(emits), st.lineno))
@@ -665,24 +842,43 @@ class Offsets:
                 syms[v] = f"@{v}"
                 henv[v] = Bf(ls(f"@{v}"), None)
         if isinstance(st, ast.For):
-            it = st.iter
-            if not (isinstance(it, ast.Call) and dotted(it.func) == "range" and len(it.args) == 1 and not it.keywords and isinstance(st.target, ast.Name)):
-                raise Unsupported(f"for over {norm_text(it)[:40]}")
-            n = self.ev(it.args[0], env)
-            if not isinstance(n, Lin):
-                raise Unsupported("range() of a non-integer")
-            count = n.l
-            henv[st.target.id] = Lin(ls("k"))
-            syms.pop(st.target.id, None)
+            it, tgt, idx = st.iter, st.target, None
+            if isinstance(it, ast.Call) and dotted(it.func) == "enumerate" and 1 <= len(it.args) <= 2 and isinstance(tgt, ast.Tuple) and len(tgt.elts) == 2 and all(isinstance(x, ast.Name) for x in tgt.elts):
+                first = self.ev(it.args[1], env) if len(it.args) == 2 else next((self.ev(k.value, env) for k in it.keywords if k.arg == "start"), Lin({}))
+                if not isinstance(first, Lin):
+                    raise Unsupported("enumerate() start")
+                idx, it, tgt = (tgt.elts[0].id, first.l), it.args[0], tgt.elts[1]
+            rng = self._range(it, env) if isinstance(tgt, ast.Name) else None
+            if rng is None:
+                raise Unsupported(f"for over {norm_text(st.iter)[:40]}")
+            count = rng[2]
+            henv[tgt.id] = Lin(ladd(rng[0], lmul(rng[1], ls("k"))))
+            syms.pop(tgt.id, None)
+            if idx is not None:
+                henv[idx[0]] = Lin(ladd(idx[1], ls("k")))
+                syms.pop(idx[0], None)
             head = None
         else:
             head = self.cond(self.ev(st.test, henv))
-        sub = Offsets(self.repo, self.module, self.fn, self.buf, self.hdr)
+        sub = Offsets(self.repo, self.module, self.fn, self.buf, self.hdr, self.cls)
         sub.nacc = self.nacc
+        sub.depth = self.depth
+        henv["__pending__"] = []
         outs = sub.run(st.body, [(dict(henv), [], [])])
         self.nacc = sub.nacc
-        if len(outs) != 1:
-            raise Unsupported(f"{len(outs)} ways through the loop body")
+        if not outs:
+            raise Unsupported("no way through the loop body")
+        if len(outs) > 1:
+            # several paths (e.g. a sensor / no-sensor branch): they must agree on where the positions move to and on what is read;
+            # the values stored may differ from path to path and are then not tracked
+            def sig(o):
+                env_o, _, em_o = o
+                return ([repr(env_o.get(v)) for v in sorted(syms)], [repr(x) for x in em_o if isinstance(x, tuple) and x[0] == "read"], [x[0] for x in em_o if isinstance(x, tuple) and x[0] != "read"])
+            if any(sig(o) != sig(outs[0]) for o in outs[1:]):
+                raise Unsupported(f"{len(outs)} ways through the loop body that read or advance differently")
+            env0, c0, em0 = outs[0]
+            em0 = [x if (isinstance(x, tuple) and x[0] == "read") else (x[0], x[1], Opaque("value depends on the path")) for x in em0]
+            outs = [(env0, c0, em0)]
         benv, bconds, bemits = outs[0]
         raises = [tuple(x.conds) for x in sub.exits if x.kind == "raise"]
         if any(isinstance(x, Loop) for x in bemits):
@@ -702,19 +898,34 @@ class Offsets:
             if any(k.startswith("@") and k != s for k in d) and not all(_sym_free(k, s2) for k in d for s2 in syms.values() if s2 != s):
                 raise Unsupported(f"stride of {v} depends on another carried position")
             init[s], stride[s] = i0, d
-        const = {s: lconst(d) for s, d in stride.items()}
+        # a stride that does not depend on the position (a constant, or a header value such as the announced record length) gives
+        # position = start + stride * k
+        const = {s: (lconst(d) if lconst(d) is not None else ("inv" if not any(("@" in k_) for k_ in d) else None)) for s, d in stride.items()}
         dyn = [s for s, k in const.items() if k is None]
         if len(dyn) > 1:
             raise Unsupported("more than one data-dependent position")
+        # `while i < N: ...; i += 1` with N fixed during the loop is `for i in range(i0, N)`
+        if head is not None and head[0] == "lt0":
+            hl = parse_l(head[1])
+            for s_, k_ in const.items():
+                if k_ == 1 and hl.get(s_) == 1 and not any("@" in x for x in hl if x != s_):
+                    bound = lscale({x: c for x, c in hl.items() if x != s_}, -1)  # N
+                    count = ladd(bound, init[s_], -1)
+                    head = None
+                    break
         for s, k in const.items():
             if k is not None:
-                mapping[s] = ladd(init[s], lscale(ls("k"), k))  # position at iteration k
+                mapping[s] = ladd(init[s], lmul(stride[s], ls("k")))  # position at iteration k
         if dyn:
             mapping[dyn[0]] = ls("p")
         sb = lambda x: subst(x, mapping)  # noqa: E731
+        def on_event(ev_):
+            if ev_[0] == "read":
+                return ("read", ev_[1], sb(ev_[2]))
+            return (ev_[0], sb(ev_[1]) if ev_[1] is not None else None, sb(ev_[2]))
         lp = Loop("for" if count is not None else "while", count, sb_c(head, mapping) if head else None,
                   {"p": init[dyn[0]]} if dyn else {}, {"p": subst_l(stride[dyn[0]], mapping)} if dyn else {},
-                  [(a, sb(k), sb(v)) for a, k, v in bemits], [tuple(sb_c(c, mapping) for c in r) for r in raises])
+                  [on_event(ev_) for ev_ in bemits], [tuple(sb_c(c, mapping) for c in r) for r in raises])
         emits = emits + [lp]
         # state after the loop
         out_env = dict(env)
@@ -723,15 +934,15 @@ class Offsets:
         for v, s in syms.items():
             k = const[s]
             if k is not None and count is not None:
-                end = ladd(init[s], lscale(count, k))
+                end = ladd(init[s], lmul(stride[s], count))
             elif k is not None:
-                end = ladd(init[s], lscale(ls("kend"), k))
+                end = ladd(init[s], lmul(stride[s], ls("kend")))
             else:
                 end = ls("pend")
             post[s] = end
             out_env[v] = Lin(end) if isinstance(env[v], Lin) else Bf(end, None)
         for v in assigned:
-            if v not in syms and v in benv and not (isinstance(st, ast.For) and v == st.target.id):
+            if v not in syms and v in benv and not (isinstance(st, ast.For) and v in {x.id for x in ast.walk(st.target) if isinstance(x, ast.Name)}):
                 val = benv[v]
                 out_env[v] = val if isinstance(val, Acc) else Opaque(f"last value of {v} in the loop")
         if head is not None:
@@ -931,6 +1142,7 @@ def simplify_exit(ex: Exit) -> Exit:
                 body, k = syms[0][4:-1].rsplit(",", 1)
                 # fd(X,k) = X/k when the remainder is 0
                 mapping[f"fd({body},{k})"] = lscale(parse_l(body), Fraction(1, int(k)))
+                mapping[f"cd({body},{k})"] = lscale(parse_l(body), Fraction(1, int(k)))
                 mapping[syms[0]] = {}
             elif "pend" in l and abs(l["pend"]) == 1:
                 rest = {k: v for k, v in l.items() if k != "pend"}
@@ -941,5 +1153,7 @@ def simplify_exit(ex: Exit) -> Exit:
     def on_emit(e):
         if isinstance(e, Loop):
             return Loop(e.kind, subst_l(e.count, mapping) if e.count is not None else None, e.head, e.init, e.stride, e.emits, e.raises)
-        return (e[0], subst(e[1], mapping), subst(e[2], mapping))
+        if e[0] == "read":
+            return ("read", e[1], subst(e[2], mapping))
+        return (e[0], subst(e[1], mapping) if e[1] is not None else None, subst(e[2], mapping))
     return Exit(ex.kind, ex.conds, subst(ex.value, mapping) if not isinstance(ex.value, str) else ex.value, [on_emit(e) for e in ex.emits], ex.line)
